@@ -12,7 +12,7 @@ from vlib import jsonvals as jv
 SIMPLE_TYPES = ["null", "boolean", "integer", "number", "string", "array", "object"]
 
 # Patterns on which ECMA-262 and Python ``re`` agree for the generated strings.
-PATTERNS = ["^a", "b$", "^[0-9]+$", "^.{2}$", "a|b", "^(foo|ba)$", "[^a]", "x", "^$"]
+PATTERNS = ["^a", "b$", "^[0-9]+$", "^.{2}$", "a|b", "^(foo|ba)$", "[^a]", "x", "^$", "-", "_", " "]
 
 # Property names with pairwise distinct Python images; includes names that need
 # translation (keyword, leading digit, punctuation, reserved dunder).
@@ -214,10 +214,25 @@ def schemas(draw, cfg=None, depth=None, _counter=None):
         if "required" in kws:
             pool = list(declared)
             if cfg.required_undeclared or not pool:
-                pool = pool + ["a", "b", "d"]
+                # (also names that are not identifiers: what governs an undeclared key - which pattern matches it,
+                # whether it is "additional" - is decided by its JSON spelling, not by any attribute name)
+                pool = pool + ["a", "b", "d", "x-id", "d e", "k.v"]
             s["required"] = draw(
                 st.lists(st.sampled_from(pool), max_size=3, unique=True)
             )
+        if cfg.required_undeclared and draw(st.integers(0, 11)) == 0:
+            # an UNDECLARED required key whose JSON spelling is not an identifier, a pattern that tells that spelling
+            # from any identifier made of it, and a restrictive additionalProperties: which of the two governs the
+            # key is decided by the JSON name
+            name, pats = draw(st.sampled_from([("x-id", ["-", "_", "^x-"]), ("d e", [" ", "_"]), ("k.v", ["[.]", "_"]),
+                                               ("a-b", ["-", "_"])]))
+            if name not in s.get("properties", {}):
+                s["required"] = list(dict.fromkeys(list(s.get("required", [])) + [name]))
+                pp = s.setdefault("patternProperties", {})
+                pp[draw(st.sampled_from(pats))] = draw(st.sampled_from([{"type": "string"}, {"type": "integer"}, True, {}]))
+                s["additionalProperties"] = draw(st.sampled_from([False, False, {"type": "null"}, {"type": "boolean"}]))
+                if "type" not in s and draw(st.integers(0, 2)) > 0:
+                    s["type"] = "object"  # the model-class route (the title is added below)
         if cfg.defaults:
             # required-with-default (the documented waiver) needs both on one property
             for name in s.get("required", []):
